@@ -30,11 +30,12 @@ def Xform.ptMap (S : Shape K) : Xform K → List K → List K
   | .rotate a c s => rotateAbout a c s (startPoint S)
 
 /-- the call is admissible for points with `d` coordinates: the translation vector has `d` entries,
-    rotations are for 2-D and 3-D shapes -/
+    rotations are for 2-D and 3-D shapes and about axis 0, 1 or 2 (otherwise `operations.rotate` raises; the model
+    would fall into the formulas of the y axis) -/
 def Xform.Ok (d : ℕ) : Xform K → Prop
   | .translate v => v.length = d
   | .scale _ => True
-  | .rotate _ _ _ => d = 2 ∨ d = 3
+  | .rotate a _ _ => (d = 2 ∨ d = 3) ∧ a ≤ 2
 
 /-- the calls applied one after the other -/
 def applyAll (S : Shape K) (xs : List (Xform K)) : Shape K := xs.foldl Xform.apply S
@@ -53,14 +54,14 @@ theorem Xform.apply_wf {d : ℕ} {S : Shape K} (h : ShapeWF d S) (x : Xform K) (
   cases x with
   | translate v => exact translate_wf h v hx
   | scale m => exact scale_wf h m
-  | rotate a c s => exact rotate_wf h hx a c s
+  | rotate a c s => exact rotate_wf h hx.1 a c s
 
 theorem Xform.apply_pointAt {d : ℕ} {S : Shape K} (h : ShapeWF d S) (x : Xform K) (hx : x.Ok d)
     (t : ℕ → K) (ht : S.InDom t) : (x.apply S).pointAt t = x.ptMap S (S.pointAt t) := by
   cases x with
   | translate v => exact translate_pointAt h v hx t ht
   | scale m => exact scale_pointAt h m t ht
-  | rotate a c s => exact rotate_pointAt h hx a c s t ht
+  | rotate a c s => exact rotate_pointAt h hx.1 a c s t ht
 
 /-- a call changes neither the rational flag nor degrees, knot vectors, sizes -/
 theorem Xform.apply_same (S : Shape K) (x : Xform K) :
@@ -78,7 +79,7 @@ theorem Xform.ptMap_affOn {d : ℕ} {S : Shape K} (h : ShapeWF d S) (x : Xform K
   cases x with
   | translate v => exact ⟨_, _, translatePt_affOn d v hx⟩
   | scale m => exact ⟨_, _, scalePt_affOn d m⟩
-  | rotate a c s => exact rotateAbout_affOn d hx a c s _ h.startPoint_length
+  | rotate a c s => exact rotateAbout_affOn d hx.1 a c s _ h.startPoint_length
 
 theorem Xform.apply_weights {d : ℕ} {S : Shape K} (h : ShapeWF d S) (hr : S.rat = true) (x : Xform K) (hx : x.Ok d) :
     (x.apply S).net.length = S.net.length ∧
@@ -86,7 +87,7 @@ theorem Xform.apply_weights {d : ℕ} {S : Shape K} (h : ShapeWF d S) (hr : S.ra
   cases x with
   | translate v => exact translate_weights h hr v hx
   | scale m => exact scale_weights h hr m
-  | rotate a c s => exact rotate_weights h hr hx a c s
+  | rotate a c s => exact rotate_weights h hr hx.1 a c s
 
 /-! ### sequences -/
 
